@@ -1131,8 +1131,8 @@ ldb_record_background_error(ldb_t *db, int status) {
    log-file/memtable and writes a new descriptor iff successful.
    Errors are recorded in bg_error. */
 static void
-ldb_compact_memtable(ldb_t *db) {
-  ldb_version_t *base;
+ldb_compact_memtable(ldb_t *db, int in_compaction) {
+  ldb_version_t *base = NULL;
   ldb_edit_t edit;
   int rc = LDB_OK;
 
@@ -1142,14 +1142,20 @@ ldb_compact_memtable(ldb_t *db) {
 
   assert(db->imm != NULL);
 
-  /* Save the contents of the memtable as a new Table. */
-  base = db->versions->current;
-
-  ldb_version_ref(base);
+  /* Save the contents of the memtable as a new Table. The table may
+     only be pushed below level 0 if no compaction is running: the
+     outputs of a running compaction are not part of any version yet,
+     so a table placed next to them could overlap them once they are
+     installed. */
+  if (!in_compaction) {
+    base = db->versions->current;
+    ldb_version_ref(base);
+  }
 
   rc = ldb_write_level0_table(db, db->imm, &edit, base);
 
-  ldb_version_unref(base);
+  if (base != NULL)
+    ldb_version_unref(base);
 
   if (rc == LDB_OK && ldb_atomic_load(&db->shutting_down, ldb_order_acquire))
     rc = LDB_IOERR; /* "Deleting DB during memtable compaction" */
@@ -1366,7 +1372,7 @@ ldb_do_compaction_work(ldb_t *db, ldb_cstate_t *state) {
       ldb_mutex_lock(&db->mutex);
 
       if (db->imm != NULL) {
-        ldb_compact_memtable(db);
+        ldb_compact_memtable(db, 1);
 
         /* Wake up make_room_for_write() if necessary. */
         ldb_cond_broadcast(&db->background_work_finished_signal);
@@ -1540,7 +1546,7 @@ ldb_background_compaction(ldb_t *db) {
   ldb_mutex_assert_held(&db->mutex);
 
   if (db->imm != NULL) {
-    ldb_compact_memtable(db);
+    ldb_compact_memtable(db, 0);
     return;
   }
 
